@@ -48,3 +48,97 @@ theorem criterion_ge_violation (c : Inner α) (miu : List α) (ro : α) (hro : 0
         exact max_le_max h1 (ih ms (by simpa using hl) (fun m' hm' => hpos m' (by simp [hm'])))
   exact key c.cineq miu hlen hm
 #print axioms criterion_ge_violation
+
+/-- loop invariant of the augmented-Lagrangian outer loop -/
+structure ALInv (nI : Nat) (s : ALState α) : Prop where
+  ro_pos : 0 < s.ro
+  miu_nonneg : ∀ m ∈ s.miu, 0 ≤ m
+  miu_len : s.miu.length = nI
+  best_len : s.best.cineq.length = nI
+  viol_le : violation s.best ≤ s.oldCrit
+  not_conv : s.status ≠ 1
+
+theorem length_zip_map {β γ δ : Type} (f : β × γ → δ) (l1 : List β) (l2 : List γ) (n : Nat)
+    (h1 : l1.length = n) (h2 : l2.length = n) : ((l1.zip l2).map f).length = n := by
+  simp [List.length_zip, h1, h2]
+
+theorem alStep_inv (eps tau gamma miuMax lmin lmax : α) (hgamma : 1 < gamma) (hmiuMax : 0 ≤ miuMax)
+    (nI outer : Nat) (s : ALState α) (c : Inner α) (close : Bool)
+    (hc : c.cineq.length = nI) (hinv : ALInv nI s) :
+    ((alStep eps tau gamma miuMax lmin lmax outer s c close).2 = false →
+        ALInv nI (alStep eps tau gamma miuMax lmin lmax outer s c close).1) ∧
+    ((alStep eps tau gamma miuMax lmin lmax outer s c close).1.status = 1 →
+        violation (alStep eps tau gamma miuMax lmin lmax outer s c close).1.best ≤ eps) := by
+  have hcrit : violation c ≤ criterion c s.miu s.ro :=
+    criterion_ge_violation c s.miu s.ro hinv.ro_pos hinv.miu_nonneg (by rw [hinv.miu_len, hc])
+  cases hv : c.valid with
+  | false =>
+    -- inner solver failed: the loop stops with status 2
+    simp [alStep, hv]
+  | true =>
+    have hbest : violation (if decide (criterion c s.miu s.ro < s.oldCrit) then c else s.best)
+        ≤ criterion c s.miu s.ro := by
+      split
+      · exact hcrit
+      · rename_i hcond
+        have : ¬ criterion c s.miu s.ro < s.oldCrit := by simpa using hcond
+        exact le_trans hinv.viol_le (not_lt.mp this)
+    have hbestlen : (if decide (criterion c s.miu s.ro < s.oldCrit) then c else s.best).cineq.length = nI := by
+      split
+      · exact hc
+      · exact hinv.best_len
+    by_cases hconv : (decide (criterion c s.miu s.ro ≤ eps) && close) = true
+    · -- converged
+      have hle : criterion c s.miu s.ro ≤ eps := by
+        have := (Bool.and_eq_true _ _).mp hconv
+        simpa using this.1
+      simp only [alStep, hv, Bool.true_and, hconv, Bool.true_or, if_true]
+      refine ⟨by simp, fun _ => le_trans hbest hle⟩
+    · have hconv' : (decide (criterion c s.miu s.ro ≤ eps) && close) = false := by simpa using hconv
+      simp only [alStep, hv, Bool.true_and, hconv', Bool.not_true, Bool.or_self, Bool.false_eq_true, if_false]
+      refine ⟨fun _ => ?_, by simp⟩
+      refine ⟨?_, ?_, ?_, hbestlen, hbest, by simp⟩
+      · show 0 < (if outer > 0 ∧ criterion c s.miu s.ro > tau * s.oldCrit then gamma * s.ro else s.ro)
+        split
+        · exact mul_pos (lt_trans one_pos hgamma) hinv.ro_pos
+        · exact hinv.ro_pos
+      · intro m hm
+        simp only [List.mem_map] at hm
+        obtain ⟨⟨a, b⟩, _, rfl⟩ := hm
+        exact le_min (le_max_right _ _) hmiuMax
+      · exact length_zip_map _ _ _ nI hinv.miu_len hc
+#print axioms alStep_inv
+
+theorem alLoop_converged_feasible (eps tau gamma miuMax lmin lmax : α) (hgamma : 1 < gamma) (hmiuMax : 0 ≤ miuMax)
+    (nI : Nat) (inner : Nat → ALState α → Inner α) (close : Nat → ALState α → Bool)
+    (hinner : ∀ k s, (inner k s).cineq.length = nI) :
+    ∀ (fuel outer : Nat) (s : ALState α), ALInv nI s →
+      (alLoop eps tau gamma miuMax lmin lmax inner close fuel outer s).status = 1 →
+      violation (alLoop eps tau gamma miuMax lmin lmax inner close fuel outer s).best ≤ eps := by
+  intro fuel
+  induction fuel with
+  | zero => intro outer s hinv h; exact absurd h hinv.not_conv
+  | succ fuel ih =>
+    intro outer s hinv h
+    have hstep := alStep_inv eps tau gamma miuMax lmin lmax hgamma hmiuMax nI outer s (inner outer s) (close outer s)
+      (hinner outer s) hinv
+    simp only [alLoop] at h ⊢
+    cases hstop : (alStep eps tau gamma miuMax lmin lmax outer s (inner outer s) (close outer s)).2 with
+    | true =>
+      simp only [hstop, if_true] at h ⊢
+      exact hstep.2 h
+    | false =>
+      simp only [hstop, Bool.false_eq_true, if_false] at h ⊢
+      exact ih (outer + 1) _ (hstep.1 hstop) h
+
+/-- for every inner-solver behaviour: a `converged` status certifies feasibility within ε -/
+theorem al_converged_feasible (eps tau gamma miuMax lmin lmax ro1 : α) (hgamma : 1 < gamma) (hmiuMax : 0 ≤ miuMax)
+    (hro : 0 < ro1) (x0 : Inner α) (inner : Nat → ALState α → Inner α) (close : Nat → ALState α → Bool)
+    (hinner : ∀ k s, (inner k s).cineq.length = x0.cineq.length) (fuel : Nat) :
+    (alLoop eps tau gamma miuMax lmin lmax inner close fuel 0 (alInit x0 ro1)).status = 1 →
+    violation (alLoop eps tau gamma miuMax lmin lmax inner close fuel 0 (alInit x0 ro1)).best ≤ eps := by
+  apply alLoop_converged_feasible eps tau gamma miuMax lmin lmax hgamma hmiuMax x0.cineq.length inner close hinner
+  refine ⟨hro, ?_, by simp [alInit], rfl, ?_, by simp [alInit]⟩
+  · intro m hm; simp [alInit] at hm; rw [hm.2]
+  · exact criterion_ge_violation x0 _ ro1 hro (by intro m hm; simp at hm; rw [hm.2]) (by simp)
+#print axioms al_converged_feasible
